@@ -619,6 +619,12 @@ func (r *Renderer) Files() map[string]string {
 			}
 			f.p("}\n\n")
 		}
+		if s.InjExtra != "" && fi == sortedIntKeys2(files)[0] {
+			for ip, alias := range s.InjExtraImports {
+				f.imports[ip] = alias
+			}
+			f.p("%s\n", s.InjExtra)
+		}
 		out[fmt.Sprintf("inject%d.go", fi)] = f.String()
 	}
 	if s.Extra != "" {
